@@ -70,6 +70,10 @@ def insertCore (h : Ht2 α) (ve : VEq α) (check : Bool) (v : α) (hash : UInt32
 def resizeTo (h : Ht2 α) (ve : VEq α) (check : Bool) (newSize : Nat) : Ht2 α :=
   h.toList.foldl (fun t (r : UInt32 × α) => t.insertCore ve check r.2 r.1) (empty newSize h.resize)
 
+/-- the "enable shrinking" step of `_lyht_insert_with_resize_cb`: `if ((ht->resize == 1) && (r >= 50)) ht->resize = 2` -/
+def armed (h1 : Ht2 α) : Ht2 α :=
+  if h1.resize = 1 ∧ (h1.used * 100) / h1.size ≥ LYHT_FIRST_SHRINK_PERCENTAGE then { h1 with resize := 2 } else h1
+
 /-- `_lyht_insert_with_resize_cb` -/
 def insert (h : Ht2 α) (ve : VEq α) (rve : Option (VEq α)) (check wantMatch : Bool) (v : α) (hash : UInt32) :
     Res α × Ht2 α :=
@@ -80,7 +84,7 @@ def insert (h : Ht2 α) (ve : VEq α) (rve : Option (VEq α)) (check wantMatch :
     let h1 := h.link v hash
     if h1.resize ≠ 0 then
       let r := (h1.used * 100) / h1.size
-      let h2 := if h1.resize = 1 ∧ r ≥ LYHT_FIRST_SHRINK_PERCENTAGE then { h1 with resize := 2 } else h1
+      let h2 := h1.armed
       if h2.resize = 2 ∧ r ≥ LYHT_ENLARGE_PERCENTAGE then
         let e := rve.getD ve
         let h3 := h2.resizeTo e check (h2.size * 2)
